@@ -835,3 +835,156 @@ fn continuation(ctx: &Ctx, image: &Image, base: &Model, ops: &[&Op]) -> Result<(
         Err(p) => Err(("continuation-panic".to_string(), p)),
     }
 }
+
+// ---------------------------------------------------------------------------------------------
+// C18, crash variant: a crash in the middle of a call addressed to ANOTHER queue must leave q
+// exactly as a crash at the corresponding op boundary of the projected history does - right
+// after recovery and through further appends and restarts.
+
+fn q_view(obs: &Obs, q: &str) -> Option<(Vec<(u64, Vec<u8>)>, Option<u64>)> {
+    obs.get(q).map(|o| (o.recs.clone(), o.last_pos))
+}
+
+/// Recovers `image`, then appends to q and restarts twice; returns q's view after each step.
+fn recover_and_continue(dir: &Path, image: &Image, q: &str, cfg: &CrashCfg) -> Result<Vec<Option<(Vec<(u64, Vec<u8>)>, Option<u64>)>>, String> {
+    let (log, _) = recover(dir, image, cfg, false)?;
+    let mut views = vec![];
+    let mut subject = Subject { dir: dir.to_path_buf(), log: Some(log), policy: cfg.policy, op_count: 0 };
+    guarded(|| {
+        views.push(q_view(&subject.observe(), q));
+        for round in 0..2u8 {
+            if subject.log().queue_exists(q) {
+                let payload = crate::ops::payload(9000 + round as u32, 3);
+                let _ = subject.apply(&COp::Append { q: q.to_string(), pos: None, payloads: vec![payload] });
+            }
+            views.push(q_view(&subject.observe(), q));
+            let _ = subject.apply(&COp::Reopen);
+            if subject.log.is_none() {
+                return Err("restart failed".to_string());
+            }
+            views.push(q_view(&subject.observe(), q));
+        }
+        Ok(())
+    })
+    .map_err(|p| p)??;
+    Ok(views)
+}
+
+pub fn c18_crash_leaf(env: &mut Env, leaf: &Leaf) {
+    let cfg = CrashCfg { property: "C18", oracle: Oracle::C02, policy: PolicyCfg::Default, hash_seed: 0, power_loss: false, second_crash: false, cont_struct: 0, cont_other: 0, initial_open: false };
+    // resolve ops against the model
+    let mut model = Model::default();
+    let mut resolver = Resolver::new(default_names());
+    let mut cops = vec![];
+    for op in leaf.seed.ops.iter().chain(leaf.ops.iter().copied()) {
+        let cop = resolver.resolve(op, &model);
+        model.apply(&cop);
+        cops.push(cop);
+    }
+    let Some(last) = cops.last().cloned() else { return };
+    let Some(x) = last.queue().map(|s| s.to_string()) else { return };
+    let dir = env.scratch.path.clone();
+    let dir2 = env.scratch2.path.clone();
+    // full run with trace, keeping the simulation state before the last op
+    env.scratch.reset();
+    let full = guarded(|| -> Option<(Sim, Vec<Event>)> {
+        let mut run = Run::start(&dir, cfg.policy, 0, true, default_names()).ok()?;
+        let mut sim = Sim::default();
+        for e in &std::mem::take(&mut run.open_events) {
+            sim.apply(e, None);
+        }
+        let n = cops.len();
+        let mut before = sim.clone();
+        let mut last_events = vec![];
+        for (k, cop) in cops.iter().enumerate() {
+            if k + 1 == n {
+                before = sim.clone();
+            }
+            let rec = run.step_concrete(cop.clone());
+            if matches!(rec.got, Outcome::Err(ErrKind::Io(_))) {
+                return None;
+            }
+            for e in &rec.events {
+                sim.apply(e, None);
+            }
+            if k + 1 == n {
+                last_events = rec.events;
+            }
+        }
+        Some((before, last_events))
+    });
+    let Ok(Some((before, last_events))) = full else {
+        env.stats.diverged += 1;
+        return;
+    };
+    env.stats.traces += 1;
+    let names = default_names();
+    for q in [&names[QA as usize], &names[QB as usize]] {
+        if *q == x {
+            continue;
+        }
+        // projected history: calls addressed to q and restarts, without the last op (which is
+        // addressed to x); crash at the op boundary
+        let proj: Vec<&COp> = cops[..cops.len() - 1].iter().filter(|c| c.queue().map(|n| n == q).unwrap_or(true)).collect();
+        if !proj.iter().any(|c| c.queue().is_some()) {
+            continue;
+        }
+        env.scratch2.reset();
+        let base = guarded(|| -> Result<Vec<_>, String> {
+            reset_hooks(0, false);
+            let mut subject = Subject::open(&dir2, cfg.policy).map_err(|e| e.to_string())?;
+            for c in &proj {
+                subject.apply(c);
+            }
+            let image = read_image(&dir2);
+            drop(subject);
+            recover_and_continue(&dir2, &image, q, &cfg)
+        });
+        let Ok(Ok(base)) = base else {
+            env.stats.diverged += 1;
+            continue;
+        };
+        env.stats.traces += 1;
+        // every crash point inside the last op of the full history
+        let mut sim = before.clone();
+        let mut points: Vec<(Image, serde_json::Value)> = vec![(sim.os.clone(), json!({"after_events": 0}))];
+        for (j, e) in last_events.iter().enumerate() {
+            if !Sim::is_mutation(e) {
+                continue;
+            }
+            if let Event::Write { data, .. } = e {
+                for c in byte_cuts(data.len()) {
+                    let mut s = sim.clone();
+                    s.apply(e, Some(c));
+                    points.push((s.os.clone(), json!({"after_events": j, "cut_bytes_of_next_write": c})));
+                }
+            }
+            sim.apply(e, None);
+            points.push((sim.os.clone(), json!({"after_events": j + 1})));
+        }
+        for (image, point) in points {
+            env.stats.evaluations += 1;
+            env.stats.transitions += 5;
+            let got = recover_and_continue(&dir2, &image, q, &cfg);
+            env.stats.nontrivial(&(hash_of(&image), q.clone()));
+            let bad = match got {
+                Ok(views) if views == base => None,
+                Ok(views) => {
+                    let i = views.iter().zip(base.iter()).position(|(a, b)| a != b).unwrap_or(0);
+                    let show = |v: &Option<(Vec<(u64, Vec<u8>)>, Option<u64>)>| v.as_ref().map(|(r, l)| (r.iter().map(|x| x.0).collect::<Vec<_>>(), *l));
+                    Some(format!("a crash inside {} (addressed to queue {}) leaves queue {} as {:?} at step {} of [recover, append, restart, append, restart]; in the history without the calls addressed to other queues, crashed at the same boundary, it is {:?}", last.to_json(), x, q, show(&views[i]), i, show(&base[i])))
+                }
+                Err(e) => Some(format!("recovery/continuation failed after a crash inside {}: {}", last.to_json(), e)),
+            };
+            if let Some(what) = bad {
+                env.stats.violation(Violation {
+                    property: "C18".into(),
+                    signature: "queue-affected-by-crash-in-other-queues-call".into(),
+                    what,
+                    case: json!({"engine":"c18-crash","seed_name":leaf.seed.name,"seed_ops":leaf.seed.ops,"ops":leaf.ops,"projected_on":q,"crash_point":point}),
+                });
+                return;
+            }
+        }
+    }
+}
